@@ -55,6 +55,53 @@ fn kind_str(k: &TokenKind) -> String {
         TokenKind::Regexish => "R".into(),
     }
 }
+/// md_doc_class of Model/C02Inert.v, computed natively from the implementation's Markdown tokens (compared with the
+/// extracted model on every M line): 0 = every zero-width token is a ParagraphBreak; 1 = not 0, every zero-width Newline
+/// counts >= 2 lines and after condense_spaces (its loop, mirrored: only the removed indices matter) no zero-width Newline
+/// is a neighbour of another Newline in the vector; 2 = the remaining class.
+fn md_doc_class(ts: &[Token]) -> u8 {
+    let zw = |t: &Token| t.span.start == t.span.end;
+    if ts.iter().all(|t| !zw(t) || matches!(t.kind, TokenKind::ParagraphBreak)) {
+        return 0;
+    }
+    if ts.iter().any(|t| zw(t) && matches!(t.kind, TokenKind::Newline(n) if n < 2)) {
+        return 2;
+    }
+    // condense_spaces: which indices are removed (double increment after a merge included)
+    let mut removed = vec![false; ts.len()];
+    let mut cursor = 0usize;
+    while cursor < ts.len() {
+        if matches!(ts[cursor].kind, TokenKind::Space(_)) {
+            let mut end = ts[cursor].span.end;
+            loop {
+                cursor += 1;
+                if cursor >= ts.len() {
+                    break;
+                }
+                let child = &ts[cursor];
+                if end != child.span.start {
+                    break;
+                }
+                if matches!(child.kind, TokenKind::Space(_)) {
+                    end = child.span.end;
+                    removed[cursor] = true;
+                    cursor += 1;
+                } else {
+                    break;
+                }
+            }
+        }
+        cursor += 1;
+    }
+    let kept: Vec<&Token> = ts.iter().zip(&removed).filter(|(_, r)| !**r).map(|(t, _)| t).collect();
+    let nl = |t: &Token| matches!(t.kind, TokenKind::Newline(_));
+    if kept.windows(2).any(|w| nl(w[0]) && nl(w[1]) && (zw(w[0]) || zw(w[1]))) {
+        2
+    } else {
+        1
+    }
+}
+
 fn toks_line(ts: &[Token]) -> String {
     let s = ts.iter().map(|t| format!("{},{},{}", t.span.start, t.span.end, kind_str(&t.kind))).collect::<Vec<_>>().join(" ");
     format!("O {s}").trim().to_string()
@@ -725,8 +772,8 @@ fn case_markdown(rep: &mut Report, text: &str, ilt: bool, dict: &Arc<FstDictiona
     let imp = guarded(|| Markdown::new(mo).parse(&src));
     let line = format!("M {} {} | {}", if ilt { 1 } else { 0 }, cps(&src), evline);
     match &imp {
-        Ok(ts) => rep.case(line.trim(), &format!("{k} {}", toks_line(ts))),
-        Err(_) => rep.case(line.trim(), &format!("{k} P")),
+        Ok(ts) => rep.case(line.trim(), &format!("{k} Z{} {}", md_doc_class(ts), toks_line(ts))),
+        Err(_) => rep.case(line.trim(), &format!("{k} Z- P")),
     }
     rep.count(&format!("md_origin:{origin}"));
     match &imp {
@@ -800,6 +847,30 @@ fn case_markdown(rep: &mut Report, text: &str, ilt: bool, dict: &Arc<FstDictiona
                     }
                 }
                 Err(m) => fail(rep, "md_doc_breaks_panic", mark("md_doc_breaks_panic", &format!("Document::new panicked on Markdown tokens whose zero-width tokens are all ParagraphBreaks, contract met: {m} at {}", last_panic_location())), inp.clone()),
+            }
+        }
+        // C02_document_markdown_inert_newlines (phase 7): contract met, class 1 (a Start(List) Newline that condense_newlines
+        // leaves alone) => Document::parse does not panic, invariant kept, every zero-width document token is a ParagraphBreak.
+        // Class 2 is what no theorem covers yet: counted, so that the evidence carries the coverage.
+        if bad.is_empty() {
+            let class = md_doc_class(pts);
+            rep.count(match class {
+                0 => "md_doc_class:0(zero-width tokens are ParagraphBreaks: C02_document_markdown_breaks)",
+                1 => "md_doc_class:1(inert zero-width Newlines: C02_document_markdown_inert_newlines)",
+                _ => "md_doc_class:2(REMAINING: a zero-width Newline merged by condense_newlines, no theorem)",
+            });
+            if class == 2 {
+                rep.sample(json!({"md_doc_class": 2, "text": text, "markdown_tokens": toks_line(pts)}));
+            }
+            if class == 1 {
+                match &doc {
+                    Ok(ts) => {
+                        if let Some((i, t)) = ts.iter().enumerate().find(|(_, t)| zw_other(t)) {
+                            fail(rep, "md_doc_inert_zero_width", mark("md_doc_inert_zero_width", &format!("[markdown] document token {i} at {} ({}) is zero-width and no ParagraphBreak although the zero-width Newlines of the Markdown vector are inert", t.span.start, kind_str(&t.kind))), inp.clone());
+                        }
+                    }
+                    Err(m) => fail(rep, "md_doc_inert_panic", mark("md_doc_inert_panic", &format!("Document::new panicked on Markdown tokens whose zero-width Newlines are inert, contract met: {m} at {}", last_panic_location())), inp.clone()),
+                }
             }
         }
         // the shapes the three _limit Examples isolate (what a theorem about zero-width tokens must exclude), counted on real vectors
